@@ -23,6 +23,7 @@ EXPLANATION = (
     "consumer accept the same signs, ± is rewritten to +/-; every built-in formatter implements format_uncertainty and "
     "format_measurement; __format__ delegates to the registry formatter. Not decided (most of the property): error "
     "scaling under conversion, first-order propagation, tokenizer look-ahead correctness, rendered strings.")
+EXPLANATION += ' Also decided (rules added after the second round of seeded changes): token conservation and look-ahead offset agreement of the uncertainty tokenizer; to_compact chooses the prefix from the (nominal) magnitude in the unprefixed unit.'
 
 
 def run(ck, ix, tier):
